@@ -43,11 +43,13 @@ var bodyPkgs = map[string]bool{
 	"github.com/google/fhir/go/proto/google/fhir/proto/r4/core/datatypes_go_proto": true,
 	"github.com/shopspring/decimal": true,
 	"net/url": true, "path": true, "encoding/base64": true, "slices": true, "unicode/utf16": true,
+	"sort": true, "math/bits": true, "sync/atomic": true, "cmp": true,
 }
 
 var execStdPkgs = map[string]bool{
 	"time": true, "net/url": true, "path": true, "encoding/base64": true,
 	"strings": true, "strconv": true, "unicode": true, "slices": true, "sort": true, "cmp": true, "unicode/utf16": true,
+	"unicode/utf8": true, "math/bits": true, "sync/atomic": true,
 }
 
 func (p *Program) isExecuted(pkgPath string) bool {
@@ -62,6 +64,11 @@ func (p *Program) isExecuted(pkgPath string) bool {
 // skipInit: packages whose init is not run (their globals are opaque).
 func (p *Program) skipInit(pkgPath string) bool {
 	if pkgPath == "github.com/shopspring/decimal" || pkgPath == "time" || pkgPath == "strconv" || pkgPath == "net/url" || pkgPath == "encoding/base64" || pkgPath == "unicode" {
+		return false
+	}
+	// every standard package whose functions run from source has its initialiser run too: their package-level tables
+	// (strings.asciiSpace, utf8.first, utf8.acceptRanges) are data the functions read
+	if execStdPkgs[pkgPath] {
 		return false
 	}
 	if !strings.HasPrefix(pkgPath, RepoModule) {
